@@ -41,7 +41,7 @@ func Bool(b bool) Val      { return Val{K: KBool, B: b} }
 func Num(f float64) Val    { return Val{K: KNum, N: f} }
 // MaxStr bounds the length of any string value (and of the output): programs
 // that double a string in a loop are outside what any check needs to run.
-const MaxStr = 1 << 16
+const MaxStr = 1 << 20
 
 func Str(s string) Val {
 	if len(s) > MaxStr {
